@@ -364,6 +364,14 @@ func runC09(c *ctx) error {
 				msgU := rawURL.EncodeToString([]byte(hU)) + "." + string(pl)
 				add("header:b64-false", rawURL.EncodeToString([]byte(hU))+"."+rawURL.EncodeToString(pl)+"."+rawURL.EncodeToString(k.RawSign([]byte(msgU))), matching, "accept")
 				add("header:b64-false:signed-encoded", world.CompactJWS(hU, pl, k), matching, "reject")
+				// "b64" must be a JSON boolean: look-alikes are refused whichever way the payload was signed
+				for _, v := range []string{`"false"`, `"true"`, `0`, `1`, `"0"`, `"1"`, `"T"`, `"F"`, `"t"`, `"f"`, `"TRUE"`, `"False"`, `null`, `2`, `[]`, `{}`, `[true]`} {
+					hN := fmt.Sprintf(`{"alg":"%s","b64":%s}`, k.Type.Alg(), v)
+					add("malformed-header:b64-look-alike:signed-encoded", world.CompactJWS(hN, pl, k), matching, "reject")
+					msgN := rawURL.EncodeToString([]byte(hN)) + "." + string(pl)
+					add("malformed-header:b64-look-alike:signed-unencoded",
+						rawURL.EncodeToString([]byte(hN))+"."+rawURL.EncodeToString(pl)+"."+rawURL.EncodeToString(k.RawSign([]byte(msgN))), matching, "reject")
+				}
 				for name, h := range map[string]string{
 					"b64-not-bool": fmt.Sprintf(`{"alg":"%s","b64":"no"}`, k.Type.Alg()),
 					"missing-alg":  `{"kid":"k"}`,
